@@ -554,11 +554,13 @@ impl Writer {
     /// Updates the active file ID and open a new data file with the new active ID.
     #[tracing::instrument(level = "debug", skip(self))]
     fn new_active_datafile(&mut self, fileid: u64) -> Result<(), Error> {
-        self.active_fileid = fileid;
+        // Only switch to the new file once it has been created, otherwise entries appended to
+        // the current file would be indexed under an ID whose file does not exist
         self.writer = LogWriter::new(log::create(utils::datafile_name(
             self.ctx.conf.path.as_path(),
-            self.active_fileid,
+            fileid,
         ))?)?;
+        self.active_fileid = fileid;
         self.written_bytes = 0;
         Ok(())
     }
